@@ -98,6 +98,9 @@ InitStrings == c \in [k : {"str"}, v : {1, 2}, n : 0..MaxLen, b : [1..MaxLen -> 
 InitCorrupt == \/ c \in [k : {"trunc"}, n : 0..RealLen]
                \/ c \in [k : {"rep1"}, p : 1..RealLen, x : Alpha]
                \/ c \in [k : {"rep2"}, p : 1..RealLen, d : 1..2, x : Small, y : Small]
+               \* a length field (varint with a 1-byte prefix) inflated to 2^21 / 2^24: the decoder must notice that
+               \* the input cannot hold that much before it allocates
+               \/ c \in [k : {"inflate"}, p : 1..RealLen, x : {21, 24}]
 Init == ph = 0 /\ (IF Mode = "strings" THEN InitStrings ELSE InitCorrupt)
 Judge == ph = 0 /\ ph' = 1 /\ UNCHANGED c
 Next == Judge
